@@ -114,6 +114,21 @@ structure WaitRes where
   sh : Sh
   toks : List Tok
 
+structure WStep where
+  sh : Sh
+  tok : Tok
+  timedOut : Bool
+  remaining : Nat
+
+/-- one event while the loop is blocked with `remaining` microseconds to its deadline -/
+def wevStep (remaining : Nat) (e : WEv) (s : Sh) : WStep :=
+  match e with
+  | .env (.adv d) =>
+    { sh := { s with wall := s.wall + d }, tok := .adv d, timedOut := decide (d ≥ remaining), remaining := remaining - d }
+  | .tmo => { sh := { s with wall := s.wall + remaining }, tok := .tmo, timedOut := true, remaining := 0 }
+  | .spur => { sh := s, tok := .spur, timedOut := false, remaining := remaining }
+  | .env ev => let p := playEnv ev s; { sh := p.1, tok := p.2, timedOut := false, remaining := remaining }
+
 /-- one `condition.wait_for(lock, remaining, wake_requested)`: the mutex is released, events
     happen one at a time, and after each of them (notification, spurious wake-up or time-out)
     the predicate is evaluated under the mutex.  An exhausted script lets the wait time out. -/
@@ -122,14 +137,10 @@ def waitOnce : Nat → List WEv → Sh → List Tok → WaitRes
     let s' := { s with wall := s.wall + remaining }
     { woken := wakeRequested s', evs := [], sh := s', toks := toks }
   | remaining, e :: rest, s, toks =>
-    let r : Sh × Tok × Bool × Nat := match e with
-      | .env (.adv d) => ({ s with wall := s.wall + d }, .adv d, decide (d ≥ remaining), remaining - d)
-      | .tmo => ({ s with wall := s.wall + remaining }, .tmo, true, 0)
-      | .spur => (s, .spur, false, remaining)
-      | .env ev => let p := playEnv ev s; (p.1, p.2, false, remaining)
-    if wakeRequested r.1 then { woken := true, evs := rest, sh := r.1, toks := toks ++ [r.2.1] }
-    else if r.2.2.1 then { woken := false, evs := rest, sh := r.1, toks := toks ++ [r.2.1] }
-    else waitOnce r.2.2.2 rest r.1 (toks ++ [r.2.1])
+    let r := wevStep remaining e s
+    if wakeRequested r.sh then { woken := true, evs := rest, sh := r.sh, toks := toks ++ [r.tok] }
+    else if r.timedOut then { woken := false, evs := rest, sh := r.sh, toks := toks ++ [r.tok] }
+    else waitOnce r.remaining rest r.sh (toks ++ [r.tok])
 
 /-- trace entries -/
 inductive Reason where
@@ -249,18 +260,27 @@ structure OpsRes where
 
 /-- execute one script entry at evaluation time `now`: scheduler requests are resolved against
     the clock into node-scheduler operations, environment events act on the shared state. -/
-def runOps (now : Nat) (started : Bool) : List ROp → Sh → List NodeSched.Op → List Tok → OpsRes
-  | [], s, acc, toks => { ops := acc, sh := s, toks := toks }
-  | .rel d :: r, s, acc, toks => runOps now started r s (acc ++ [.schedDelta d 0]) (toks ++ [.rel d])
-  | .abs t :: r, s, acc, toks => runOps now started r s (acc ++ [.sched t 0]) (toks ++ [.abs t])
-  | .wallRel d :: r, s, acc, toks =>
+def runOps (now : Nat) (started : Bool) : List ROp → Sh → OpsRes
+  | [], s => { ops := [], sh := s, toks := [] }
+  | .rel d :: r, s =>
+    let x := runOps now started r s
+    { x with ops := .schedDelta d 0 :: x.ops, toks := .rel d :: x.toks }
+  | .abs t :: r, s =>
+    let x := runOps now started r s
+    { x with ops := .sched t 0 :: x.ops, toks := .abs t :: x.toks }
+  | .wallRel d :: r, s =>
     let ref := max now s.wall
-    runOps now started r s (acc ++ [.sched (wallTime now ref started (ref + d)) 0]) (toks ++ [.wallRel d s.wall])
-  | .wallAbs t :: r, s, acc, toks =>
+    let x := runOps now started r s
+    { x with ops := .sched (wallTime now ref started (ref + d)) 0 :: x.ops, toks := .wallRel d s.wall :: x.toks }
+  | .wallAbs t :: r, s =>
     let ref := max now s.wall
-    runOps now started r s (acc ++ [.sched (wallTime now ref started t) 0]) (toks ++ [.wallAbs t s.wall])
-  | .env e :: r, s, acc, toks => let p := playEnv e s; runOps now started r p.1 acc (toks ++ [p.2])
-  | .loop :: r, s, acc, toks => runOps now started r s acc toks
+    let x := runOps now started r s
+    { x with ops := .sched (wallTime now ref started t) 0 :: x.ops, toks := .wallAbs t s.wall :: x.toks }
+  | .env e :: r, s =>
+    let p := playEnv e s
+    let x := runOps now started r p.1
+    { x with toks := p.2 :: x.toks }
+  | .loop :: r, s => runOps now started r s
 
 structure NodesRes where
   nodes : List RNode
@@ -268,28 +288,35 @@ structure NodesRes where
   recs : List (Nat × Nat × List Tok)
 
 /-- `graph.start`: the start hooks of the script nodes in order (`started = false`) -/
-def startNodes (start : Nat) : List (List (List ROp)) → Nat → Sh → List RNode → List (Nat × Nat × List Tok) → NodesRes
-  | [], _, s, acc, recs => { nodes := acc, sh := s, recs := recs }
-  | sc :: rest, id, s, acc, recs =>
-    let r := runOps start false (scriptEntry sc 0) s [] []
+def startNodes (start : Nat) : List (List (List ROp)) → Nat → Sh → NodesRes
+  | [], _, s => { nodes := [], sh := s, recs := [] }
+  | sc :: rest, id, s =>
+    let r := runOps start false (scriptEntry sc 0) s
     let st := NodeSched.startNode start r.ops {}
-    startNodes start rest (id + 1) r.sh (acc ++ [{ st := st, k := 1 }]) (recs ++ [(id, 0, r.toks)])
+    let x := startNodes start rest (id + 1) r.sh
+    { nodes := { st := st, k := 1 } :: x.nodes, sh := x.sh, recs := (id, 0, r.toks) :: x.recs }
 
 /-- the scan of `evaluate_impl` over the script nodes: a node runs iff its slot equals the cycle time -/
-def evalNodes (t : Nat) : List (List (List ROp)) → List RNode → Nat → Sh → List RNode → List (Nat × Nat × List Tok) → NodesRes
-  | sc :: scs, n :: ns, id, s, acc, recs =>
+def evalNodes (t : Nat) : List (List (List ROp)) → List RNode → Nat → Sh → NodesRes
+  | sc :: scs, n :: ns, id, s =>
     if n.st.slot = t then
-      let r := runOps t true (scriptEntry sc n.k) s [] []
+      let r := runOps t true (scriptEntry sc n.k) s
       let st := NodeSched.evalNode t r.ops n.st
-      evalNodes t scs ns (id + 1) r.sh (acc ++ [{ st := st, k := n.k + 1 }]) (recs ++ [(id, n.k, r.toks)])
-    else evalNodes t scs ns (id + 1) s (acc ++ [n]) recs
-  | _, ns, _, s, acc, recs => { nodes := acc ++ ns, sh := s, recs := recs }
+      let x := evalNodes t scs ns (id + 1) r.sh
+      { nodes := { st := st, k := n.k + 1 } :: x.nodes, sh := x.sh, recs := (id, n.k, r.toks) :: x.recs }
+    else
+      let x := evalNodes t scs ns (id + 1) s
+      { x with nodes := n :: x.nodes }
+  | _, ns, _, s => { nodes := ns, sh := s, recs := [] }
+
+/-- fold step of `minSlot` -/
+def minStep (p : Nat → Bool) (acc : Option Nat) (n : RNode) : Option Nat :=
+  if p n.st.slot then
+    (match acc with | none => some n.st.slot | some m => if n.st.slot < m then some n.st.slot else acc)
+  else acc
 
 /-- `min` of the armed slots satisfying `p` -/
-def minSlot (p : Nat → Bool) (nodes : List RNode) : Option Nat :=
-  nodes.foldl (fun acc n => if p n.st.slot then
-      (match acc with | none => some n.st.slot | some m => if n.st.slot < m then some n.st.slot else acc)
-    else acc) none
+def minSlot (p : Nat → Bool) (nodes : List RNode) : Option Nat := nodes.foldl (minStep p) none
 
 structure StartRes where
   g : Gr
@@ -300,7 +327,7 @@ structure StartRes where
     start hooks, `next_scheduled_time` is seeded with `scheduled >= evaluation_time`. -/
 def startGraph (cfg : Cfg) (s : Sh) : StartRes :=
   let s0 := { s with accepting := true }
-  let r := startNodes cfg.start cfg.scripts 1 s0 [] []
+  let r := startNodes cfg.start cfg.scripts 1 s0
   { g := { nodes := r.nodes, next := minSlot (fun x => decide (x ≥ cfg.start)) r.nodes },
     sh := r.sh,
     log := r.recs.map (fun x => .startNode x.1 x.2.2) }
@@ -310,33 +337,36 @@ structure EvalRes where
   sh : Sh
   crec : CycleRec
 
-/-- one `graph.evaluate(t)` of cycle number `k`, with the harness's observation points around it -/
+/-- events played at an observation point of cycle `k`, if the script has any -/
+def obsPhase (evs : List (Nat × List EnvEv)) (k : Nat) (s : Sh) : Sh × Option (List Tok) :=
+  match lookupEvs evs k with
+  | some l => let r := playEnvs l s []; (r.1, some r.2)
+  | none => (s, none)
+
+/-- the push phase of `evaluate_impl`: `reset_push_update_pending`, then `push_source_eval`
+    when the flag was set: pop one value, re-arm the executor when more is pending -/
+def pushPhase (s : Sh) : Sh × Option Nat :=
+  let rf := resetFlag s
+  if rf.1 then
+    match rf.2.queue with
+    | [] => (rf.2, none)
+    | v :: rest =>
+      let s1 := { rf.2 with queue := rest }
+      (if rest.isEmpty then s1 else mark s1, some v)
+  else (rf.2, none)
+
+/-- one `graph.evaluate(t)` of cycle number `k`, with the harness's observation points around it:
+    events after the loop's stop check and before the flag reset (`on_before_graph_evaluation`),
+    the push phase, the scan, the cost of the cycle, events before the loop looks at the stop
+    flag again (`on_after_graph_evaluation`). -/
 def evalGraph (cfg : Cfg) (k t : Nat) (g : Gr) (s : Sh) : EvalRes :=
-  let wallAtBegin := s.wall
-  -- events after the loop's stop check and before the flag reset (`on_before_graph_evaluation`)
-  let b : Sh × Option (List Tok) := match lookupEvs cfg.before k with
-    | some l => let r := playEnvs l s []; (r.1, some r.2)
-    | none => (s, none)
-  -- push phase: `reset_push_update_pending`, then `push_source_eval` when it was set
-  let rf := resetFlag b.1
-  let p : Sh × Option Nat :=
-    if rf.1 then
-      match rf.2.queue with
-      | [] => (rf.2, none)
-      | v :: rest =>
-        let s1 := { rf.2 with queue := rest }
-        (if rest.isEmpty then s1 else mark s1, some v)     -- re-arm when more is pending
-    else (rf.2, none)
-  let nr := evalNodes t cfg.scripts g.nodes 1 p.1 [] []
+  let b := obsPhase cfg.before k s
+  let p := pushPhase b.1
+  let nr := evalNodes t cfg.scripts g.nodes 1 p.1
   let nxt := minSlot (fun x => decide (x > t)) nr.nodes
-  -- the cycle took `cost`; then events before the loop looks at the stop flag again
-  let s2 := { nr.sh with wall := nr.sh.wall + cfg.cost }
-  let a : Sh × Option (List Tok) := match lookupEvs cfg.after k with
-    | some l => let r := playEnvs l s2 []; (r.1, some r.2)
-    | none => (s2, none)
-  let cr : CycleRec :=
-    { t := t, wall := wallAtBegin, before := b.2, nodes := nr.recs, delivered := p.2, next := nxt, after := a.2 }
-  { g := { nodes := nr.nodes, next := nxt }, sh := a.1, crec := cr }
+  let a := obsPhase cfg.after k { nr.sh with wall := nr.sh.wall + cfg.cost }
+  { g := { nodes := nr.nodes, next := nxt }, sh := a.1,
+    crec := { t := t, wall := s.wall, before := b.2, nodes := nr.recs, delivered := p.2, next := nxt, after := a.2 } }
 
 /-! ### the run loop -/
 
@@ -347,59 +377,155 @@ structure LoopSt where
   g : Gr
   evs : List WEv
   sh : Sh
-  log : List Entry := []
 
+/-- result of one loop iteration, with the trace entries it produced -/
 inductive Iter where
-  | cont (st : LoopSt)
-  | done (r : Reason) (st : LoopSt)
+  | cont (st : LoopSt) (ents : List Entry)
+  | done (r : Reason) (st : LoopSt) (ents : List Entry)
+
+/-- `next` as `run_storage` passes it to `advance`: `idle_run_continues` is `true` in real
+    time, so an idle graph (or one with nothing before `end_time`) waits for `end_time` -/
+def loopNext (endT : Nat) : Option Nat → Nat
+  | none => endT
+  | some n => if n ≥ endT then endT else n
 
 /-- one iteration of the `while (!stop_requested)` loop of `run_storage` -/
 def iter (cfg : Cfg) (st : LoopSt) : Iter :=
-  if st.sh.stopReq then .done .stop st
+  if st.sh.stopReq then .done .stop st []
   else
-    -- `idle_run_continues` is `true` in real time: an idle graph waits for `end_time`
-    let nxt := match st.g.next with
-      | none => cfg.endT
-      | some n => if n ≥ cfg.endT then cfg.endT else n
-    let a := advance cfg.endT cfg.slice nxt st.evalTime st.consec st.evs st.sh st.log
-    let st1 : LoopSt := { st with evalTime := a.t, evs := a.evs, sh := a.sh, log := a.log }
-    if a.sh.stopReq then .done .stop st1
-    else if a.t ≥ cfg.endT then .done (if a.cut then .cutoff else .endReached) st1
+    let a := advance cfg.endT cfg.slice (loopNext cfg.endT st.g.next) st.evalTime st.consec st.evs st.sh []
+    let st1 : LoopSt := { st with evalTime := a.t, evs := a.evs, sh := a.sh }
+    if a.sh.stopReq then .done .stop st1 a.log
+    else if a.t ≥ cfg.endT then .done (if a.cut then .cutoff else .endReached) st1 a.log
     else
       let consec' := if a.t = st.evalTime + 1 then st.consec + 1 else 0
       let e := evalGraph cfg st.k a.t st.g a.sh
-      .cont { k := st.k + 1, evalTime := a.t, consec := consec', g := e.g, evs := a.evs, sh := e.sh,
-              log := a.log ++ [.cycle e.crec] }
+      .cont { k := st.k + 1, evalTime := a.t, consec := consec', g := e.g, evs := a.evs, sh := e.sh }
+            (a.log ++ [.cycle e.crec])
 
 structure RunRes where
   reason : Reason
   st : LoopSt
+  log : List Entry        -- the entries produced from the given state on
 
 def runLoop (cfg : Cfg) : Nat → LoopSt → RunRes
-  | 0, st => { reason := .fuel, st := st }
+  | 0, st => { reason := .fuel, st := st, log := [] }
   | fuel + 1, st =>
     match iter cfg st with
-    | .done r st' => { reason := r, st := st' }
-    | .cont st' => runLoop cfg fuel st'
+    | .done r st' ents => { reason := r, st := st', log := ents }
+    | .cont st' ents =>
+      let r := runLoop cfg fuel st'
+      { r with log := ents ++ r.log }
 
-/-- the state `run_storage` enters its loop with -/
-def initSt (cfg : Cfg) (evs : List WEv) : LoopSt :=
+/-- the state `run_storage` enters its loop with (after `graph.start`), and the start entries -/
+def initSt (cfg : Cfg) (evs : List WEv) : LoopSt × List Entry :=
   let s : Sh := { wall := cfg.wall0 }
   let r := startGraph cfg s
-  { evalTime := cfg.start, g := r.g, evs := evs, sh := r.sh, log := [.start cfg.wall0] ++ r.log }
+  ({ evalTime := cfg.start, g := r.g, evs := evs, sh := r.sh }, [.start cfg.wall0] ++ r.log)
 
 /-- enough iterations for any run: evaluation times are strictly increasing below `endT` -/
 def runFuel (cfg : Cfg) : Nat := cfg.endT - cfg.start + 2
 
 /-- `GraphExecutorView::run()` in real-time mode -/
 def run (cfg : Cfg) (evs : List WEv) : RunRes :=
-  let r := runLoop cfg (runFuel cfg) (initSt cfg evs)
-  { r with st := { r.st with log := r.st.log ++ [.fin r.reason r.st.sh.wall] } }
+  let i := initSt cfg evs
+  let r := runLoop cfg (runFuel cfg) i.1
+  { r with log := i.2 ++ r.log ++ [.fin r.reason r.st.sh.wall] }
 
 /-- the cycle records of a log, in order -/
 def cycles : List Entry → List CycleRec
   | [] => []
   | .cycle c :: rest => c :: cycles rest
   | _ :: rest => cycles rest
+
+/-- which slot values count as armed in a loop state: `scheduled >= start_time` right after
+    `graph.start`, `scheduled > evaluation_time` after a cycle -/
+def armedP (cfg : Cfg) (st : LoopSt) (x : Nat) : Bool :=
+  if st.k = 0 then decide (x ≥ cfg.start) else decide (x > st.evalTime)
+
+/-- node `j` (id `j+1`) has a wake-up armed for time `T` -/
+def Armed (cfg : Cfg) (st : LoopSt) (j T : Nat) : Prop :=
+  ∃ n, st.g.nodes[j]? = some n ∧ n.st.slot = T ∧ armedP cfg st T = true
+
+/-- a token recording a stop request -/
+def hasStopTok (l : List Tok) : Bool := l.any (fun t => match t with | .stopped _ => true | _ => false)
+
+/-- the entry records a stop request -/
+def entryHasStop : Entry → Bool
+  | .waited toks => hasStopTok toks
+  | .startNode _ toks => hasStopTok toks
+  | .cycle c =>
+    (match c.before with | some l => hasStopTok l | none => false)
+    || c.nodes.any (fun n => hasStopTok n.2.2)
+    || (match c.after with | some l => hasStopTok l | none => false)
+  | _ => false
+
+/-! ### the signal protocol at lock level
+
+The run-loop model above treats every mutex-protected section as one atomic step.  This small
+transition system justifies that for the wake-up protocol: the loop thread (`lock; while
+(!pred) cv.wait(lock)`, later `reset` under the mutex) against any number of signalling threads
+(`{ lock; flag = true; } notify_all()` — `realtime_mark_push_update_pending_impl` and
+`realtime_request_stop_impl`), interleaved arbitrarily.  `flag` stands for the wait predicate
+`push_update_pending || stop_requested`. -/
+namespace Sig
+
+inductive LPc where
+  | outside                -- evaluating / at the loop head, mutex not held
+  | locked                 -- holds the mutex, about to read the predicate
+  | read (seen : Bool)     -- has read the predicate, still holds the mutex
+  | waiting                -- blocked in `cv.wait` (mutex released atomically with blocking)
+  | woken                  -- unblocked, must re-acquire the mutex
+  | running                -- left the wait loop (mutex released)
+deriving Repr, DecidableEq
+
+inductive SPc where
+  | idle | locked | set | unlocked
+deriving Repr, DecidableEq
+
+inductive Owner where
+  | loop | sig (i : Nat)
+deriving Repr, DecidableEq
+
+structure P where
+  mutex : Option Owner := none
+  flag : Bool := false
+  lpc : LPc := .outside
+  spc : Nat → SPc := fun _ => .idle
+  notified : Bool := false      -- a notification has reached the blocked loop thread
+
+def upd (f : Nat → SPc) (i : Nat) (v : SPc) : Nat → SPc := fun j => if j = i then v else f j
+
+/-- atomic steps of the threads; `nolock` additionally allows the broken variant in which a
+    signaller sets the flag without holding the mutex -/
+inductive Step (nolock : Bool) : P → P → Prop where
+  | l_lock (s : P) : s.lpc = .outside → s.mutex = none → Step nolock s { s with mutex := some .loop, lpc := .locked }
+  | l_read (s : P) : s.lpc = .locked → Step nolock s { s with lpc := .read s.flag }
+  | l_skip (s : P) : s.lpc = .read true → Step nolock s { s with lpc := .running, mutex := none }
+  | l_block (s : P) : s.lpc = .read false →
+      Step nolock s { s with lpc := .waiting, mutex := none, notified := false }
+  | l_notified (s : P) : s.lpc = .waiting → s.notified = true → Step nolock s { s with lpc := .woken, notified := false }
+  | l_timeout (s : P) : s.lpc = .waiting → Step nolock s { s with lpc := .woken }     -- time-out or spurious wake-up
+  | l_relock (s : P) : s.lpc = .woken → s.mutex = none → Step nolock s { s with mutex := some .loop, lpc := .locked }
+  | l_reset (s : P) : s.lpc = .running → s.mutex = none → Step nolock s { s with flag := false, lpc := .outside }
+  | s_lock (s : P) (i : Nat) : s.spc i = .idle → s.mutex = none →
+      Step nolock s { s with mutex := some (.sig i), spc := upd s.spc i .locked }
+  | s_set (s : P) (i : Nat) : s.spc i = .locked → Step nolock s { s with flag := true, spc := upd s.spc i .set }
+  | s_unlock (s : P) (i : Nat) : s.spc i = .set → Step nolock s { s with mutex := none, spc := upd s.spc i .unlocked }
+  | s_notify (s : P) (i : Nat) : s.spc i = .unlocked →
+      Step nolock s { s with notified := (if s.lpc = .waiting then true else s.notified), spc := upd s.spc i .idle }
+  | s_set_nolock (s : P) (i : Nat) : nolock = true → s.spc i = .idle →
+      Step nolock s { s with flag := true, spc := upd s.spc i .unlocked }
+
+inductive Reach (nolock : Bool) : P → Prop where
+  | init : Reach nolock {}
+  | step {s s' : P} : Reach nolock s → Step nolock s s' → Reach nolock s'
+
+/-- a missed signal: the predicate is true, the loop is blocked, and nothing will wake it
+    before the slice times out -/
+def Missed (s : P) : Prop :=
+  s.lpc = .waiting ∧ s.flag = true ∧ s.notified = false ∧ ∀ i, s.spc i ≠ .set ∧ s.spc i ≠ .unlocked
+
+end Sig
 
 end HgVerif.Realtime
